@@ -44,6 +44,8 @@ type Step struct {
 	Height  float64  `json:"height,omitempty"`
 	HAlign  int      `json:"halign,omitempty"`
 	VAlign  int      `json:"valign,omitempty"`
+	WMode   int      `json:"wmode,omitempty"`  // richtext: 0 horizontal, 1 vertical RL, 2 vertical LR
+	Orient  int      `json:"orient,omitempty"` // richtext: text orientation for vertical modes
 	Draw    *Drawing `json:"draw,omitempty"`
 	Format  string   `json:"format,omitempty"`
 	Opt     int      `json:"opt,omitempty"`
@@ -76,6 +78,12 @@ type DrawItem struct {
 	Text   string    `json:"text,omitempty"`
 	Deco   int       `json:"deco,omitempty"`
 	Style  int       `json:"style,omitempty"`
+	// image: ImgW x ImgH pixels generated from ImgSeed (ImgKind 0 opaque RGBA, 1 with alpha, 2 NRGBA, 3 gray), drawn at Res dots/mm
+	ImgW    int     `json:"img_w,omitempty"`
+	ImgH    int     `json:"img_h,omitempty"`
+	ImgSeed uint64  `json:"img_seed,omitempty"`
+	ImgKind int     `json:"img_kind,omitempty"`
+	Res     float64 `json:"res,omitempty"`
 }
 
 // TaskSpec is the program of one caller goroutine.
